@@ -45,7 +45,7 @@ def programs(ctx):
     progs = progs[:(9 if quick else len(progs))] + extra
     if not quick:
         rng.shuffle(progs)
-        progs = progs[:80]
+        progs = progs[:36]
     out = []
     for p in progs:
         q = []
